@@ -13,7 +13,7 @@ import random
 import shutil
 import typing as T
 
-from harness import projgen, refninja
+from harness import featproj, projgen, refninja
 from harness.core import Ctx, Evidence, Failure, HarnessError, campaign, make_scratch, pmap, shard_seeds
 from harness.mesondrv import run_inproc, run_sub, base_env
 
@@ -25,11 +25,19 @@ RULE = ('Hypothesis project models (profile deps: C sources that really #include
         'present (all other build outputs moved away), depfile cross-check, and several schedules (random topological, producers-last, reverse '
         'declaration, parallel waves) compared by output digests. non-trivial edge replay = >=1 non-ancestor output was actually removed and the '
         'edge has >=1 generated ancestor; non-trivial schedule = differs from the reference order; distinct by (model hash, edge outputs) / '
-        '(model hash, order hash).')
+        '(model hash, order hash). In both tiers every project of the deterministic feature catalogue harness/featproj.py (precompiled headers, '
+        'Rust, Java, Fortran modules with dyndep and with the pre-1.10 ninja paths, C/C++ mixes, link_depends:, objects:, extract_objects(), '
+        'link_whole of a custom target, both_libraries(), generator depends:/built generator programs, depfile:, vcs_tag()/configure_file(command:), '
+        'run/alias targets, subproject and sibling-directory generated headers; the seed only selects option sets: layout, unity, default_library, '
+        'b_pch, buildtype, language) is configured in a fresh process and judged by the same oracle (dyndep files are built and loaded first); '
+        'its cases are counted in class feature/<entry> with the same non-triviality rule, distinct by (case hash, edge outputs / order).')
 ASSUMPTIONS = [
     'build steps are monotone in the set of present files (a step that succeeds with only its ancestors present also succeeds with more files present); the schedule runs test this assumption',
     'build.ninja is executed by harness/refninja.py (no ninja binary in the sandbox): /bin/sh -c <expanded command> in the build dir, rspfiles written as ninja does',
     'gcc/ar/python produce deterministic outputs at fixed absolute paths',
+    'catalogue projects: rustc, javac, gfortran and the meson-internal depscan/copy steps are deterministic too; jar archives embed the wall-clock time of their members and are compared by member names and contents; precompiled headers (.gch/.pch) are a dump of compiler memory and are compared by existence only',
+    'dyndep: every dyndep file is built (with its declared ancestors only) and loaded before the schedules are drawn; the declared edges of a statement are those of build.ninja plus those of its dyndep file, which is the graph ninja works with once the dyndep files are up to date',
+    'a statement whose command is the no-op `true` (FORTRAN_DEP_HACK of the pre-1.10 ninja path) does not write its outputs: they count as outputs of the statements it directly depends on',
 ]
 
 INTERNAL_PREFIX = 'meson-internal__'
@@ -43,8 +51,7 @@ def selftest(ctx: Ctx) -> None:
         raise HarnessError(f'refninja self-test failed: {e}')
 
 
-def buildable_edges(m: refninja.Manifest, model: dict) -> T.List[refninja.Edge]:
-    run_names = {INTERNAL_PREFIX + t['name'] for t in model['targets'] if t['kind'] == 'run'}
+def buildable_edges(m: refninja.Manifest, run_names: T.Set[str]) -> T.List[refninja.Edge]:
     out = []
     for e in m.edges:
         if e.is_phony or e.rule.name == 'REGENERATE_BUILD':
@@ -67,13 +74,33 @@ def all_build_outputs(edges: T.List[refninja.Edge]) -> T.List[str]:
     return res
 
 
+def artifact_digest(path: str) -> str:
+    """Digest of one build product.  jar archives carry the wall-clock time of every member (the JDK's jar tool has no
+    reproducible mode before 19), so they are compared by member names and member contents."""
+    if path.endswith('.jar') and os.path.isfile(path) and not os.path.islink(path):
+        import hashlib
+        import zipfile
+        try:
+            h = hashlib.sha1()
+            with zipfile.ZipFile(path) as z:
+                for n in sorted(z.namelist()):
+                    h.update(n.encode() + b'\0' + hashlib.sha1(z.read(n)).digest())
+            return 'jar:' + h.hexdigest()
+        except zipfile.BadZipFile:
+            pass
+    if path.endswith(('.gch', '.pch')) and os.path.isfile(path):
+        # a precompiled header is a dump of the compiler's memory; two runs of the same command differ
+        return 'pch:present'
+    return refninja.file_digest(path)
+
+
 def digests(bld: str, edges: T.List[refninja.Edge]) -> T.Dict[str, str]:
     d = {}
     for e in edges:
         for o in e.all_outs:
             if o.startswith(INTERNAL_PREFIX):
                 continue
-            d[o] = refninja.file_digest(os.path.join(bld, o))
+            d[o] = artifact_digest(os.path.join(bld, o))
     return d
 
 
@@ -183,13 +210,12 @@ def describe(e: refninja.Edge) -> str:
 
 
 def check_model(model: dict, workdir: str, ev: T.Optional[Evidence], seed: int, nsched: int = 4) -> T.Optional[Failure]:
+    """A generated project model: write it, configure it, judge the configured build directory."""
     src = os.path.join(workdir, 'src')
     bld = os.path.join(workdir, 'bld')
     side = os.path.join(workdir, 'side')
     shutil.rmtree(workdir, ignore_errors=True)
     os.makedirs(src)
-    env = base_env()
-    rnd = random.Random(seed)
     try:
         projgen.write_project(model, src)
         args = ['setup'] + projgen.setup_args(model) + [bld, src]
@@ -202,129 +228,225 @@ def check_model(model: dict, workdir: str, ev: T.Optional[Evidence], seed: int, 
                 if ev is not None:
                     ev.exclude('project did not configure (C04 territory)')
                 return None
-        try:
-            m = refninja.parse_file(os.path.join(bld, 'build.ninja'))
-        except refninja.NinjaError:
-            if ev is not None:
-                ev.exclude('build.ninja does not parse (C04 territory)')
-            return None
-        edges = buildable_edges(m, model)
-        edge_ids = {id(e) for e in edges}
-        ref_order = schedule(m, edges, 'declaration', rnd)
-        # (1) reference build
-        for e in ref_order:
-            rr = refninja.run_edge(e, bld, env)
-            if rr.rc != 0:
-                return Failure('schedule/declaration-order-fails', model,
-                               f'reference build (declaration-stable topological order) failed at {describe(e)}:\n$ {rr.command}\n{rr.output[-1500:]}')
-        ref = digests(bld, edges)
-        missing = [o for o, d in ref.items() if d == 'missing']
-        if missing:
-            return Failure('schedule/output-not-produced', model, f'after a successful build these declared outputs do not exist: {missing[:5]}')
-        producers = {}
-        for e in edges:
-            for o in e.all_outs:
-                producers[o] = e
-        # (3) depfile cross-check
-        for e in edges:
-            df = e.get('depfile')
-            if not df or not os.path.exists(os.path.join(bld, df)):
-                continue
-            with open(os.path.join(bld, df), encoding='utf-8', errors='replace') as fh:
-                deps = refninja.parse_depfile(fh.read())
-            anc = m.ancestors(e)
-            for dp in deps:
-                rel = dp
-                if os.path.isabs(dp):
-                    rel = os.path.relpath(dp, bld)
-                rel = refninja.canon_path(rel)
-                pe = producers.get(rel)
-                if pe is not None and pe is not e and id(pe) not in anc:
-                    return Failure('depfile/undeclared-generated-input', model,
-                                   f'{describe(e)} really read the generated file {rel!r} (per its depfile) but the statement producing it '
-                                   f'({describe(pe)}) is not among its declared ancestors')
-        # (2) hermetic per-edge replay
-        all_outs = all_build_outputs(edges)
-        for e in edges:
-            anc = m.ancestors(e)
-            keep = set()
-            for a in edges:
-                if id(a) in anc:
-                    keep.update(a.all_outs)
-            moved = []
-            os.makedirs(side, exist_ok=True)
-            for i, o in enumerate(all_outs):
-                if o in keep:
-                    continue
-                p = os.path.join(bld, o)
-                if os.path.lexists(p):
-                    os.rename(p, os.path.join(side, str(i)))
-                    moved.append((i, p))
-            try:
-                rr = refninja.run_edge(e, bld, env)
-                got = {o: refninja.file_digest(os.path.join(bld, o)) for o in e.all_outs if not o.startswith(INTERNAL_PREFIX)}
-            finally:
-                for o in e.all_outs:
-                    p = os.path.join(bld, o)
-                    if os.path.lexists(p) and any(p == mp for _, mp in moved):
-                        if os.path.isdir(p) and not os.path.islink(p):
-                            shutil.rmtree(p)
-                        else:
-                            os.unlink(p)
-                df = e.get('depfile')
-                if df and os.path.lexists(os.path.join(bld, df)) and any(os.path.join(bld, df) == mp for _, mp in moved):
-                    os.unlink(os.path.join(bld, df))
-                for i, p in moved:
-                    os.rename(os.path.join(side, str(i)), p)
-            gen_anc = any(id(a) in anc for a in edges)
-            removed_other = sum(1 for _, p in moved if os.path.relpath(p, bld) not in e.all_outs)
-            if ev is not None:
-                ev.case((model_hash(model), e.outs), nontrivial=gen_anc and removed_other > 0, cls=f'hermetic/{e.rule.name}',
-                        sample={'edge': describe(e), 'ancestors': len(anc), 'outputs_removed': len(moved)})
-            if rr.rc != 0:
-                kind = e.rule.name
-                return Failure(f'hermetic/step-fails:{kind}', model,
-                               f'{describe(e)} fails when only the outputs of its declared ancestors are present '
-                               f'({len(moved)} other build outputs moved away):\n$ {rr.command}\n{rr.output[-1500:]}')
-            for o, dg in got.items():
-                if dg != ref[o]:
-                    return Failure(f'hermetic/output-differs:{e.rule.name}', model,
-                                   f'{describe(e)} produced a different {o!r} when only its declared ancestors\' outputs were present')
-        # (4) schedules
-        policies = ['producers-last', 'reverse-decl', 'consumers-first'] + ['random'] * max(1, nsched - 3)
-        for k, pol in enumerate(policies[:nsched]):
-            order = schedule(m, edges, pol, rnd)
-            par = (k % 2 == 1)
-            clean_outputs(bld, edges)
-            differs = [describe(a) for a, b in zip(order, ref_order) if a is not b]
-            if par:
-                for wave in waves(m, order, edges):
-                    with concurrent.futures.ThreadPoolExecutor(max_workers=4) as ex:
-                        results = list(ex.map(lambda e: refninja.run_edge(e, bld, env), wave))
-                    bad = [x for x in results if x.rc != 0]
-                    if bad:
-                        rr = bad[0]
-                        return Failure(f'schedule/step-fails:{pol}:parallel', model,
-                                       f'under schedule {pol!r} (parallel waves) {describe(rr.edge)} failed:\n$ {rr.command}\n{rr.output[-1500:]}')
-            else:
-                for e in order:
-                    rr = refninja.run_edge(e, bld, env)
-                    if rr.rc != 0:
-                        pos = order.index(e)
-                        return Failure(f'schedule/step-fails:{pol}', model,
-                                       f'under the valid topological order {pol!r} step {pos + 1}/{len(order)} {describe(e)} failed:\n$ {rr.command}\n{rr.output[-1500:]}'
-                                       f'\norder so far: {[describe(x) for x in order[:pos + 1]][-6:]}')
-            got = digests(bld, edges)
-            diff = [o for o in ref if got.get(o) != ref[o]]
-            if ev is not None:
-                ev.case((model_hash(model), pol, [x.outs for x in order]), nontrivial=bool(differs), cls=f'schedule/{pol}{"/parallel" if par else ""}',
-                        sample={'policy': pol, 'edges': len(order), 'positions_differing_from_reference': len(differs)})
-            if diff:
-                return Failure(f'schedule/artifact-differs:{pol}', model,
-                               f'schedule {pol!r} produced different artifacts than the reference order: {diff[:5]}')
-        return None
+        run_names = {INTERNAL_PREFIX + t['name'] for t in model['targets'] if t['kind'] == 'run'}
+        return judge_build(bld, side, model, ev, seed, nsched, run_names, model_hash(model))
     finally:
         shutil.rmtree(workdir, ignore_errors=True)
+
+
+def check_feature(case: dict, workdir: str, ev: T.Optional[Evidence], seed: int, nsched: int = 4) -> T.Optional[Failure]:
+    """A catalogue project (harness/featproj.py): write it, configure it in a fresh process, judge the build directory
+    with the same oracle as the generated models."""
+    name = case['feature']
+    miss = featproj.missing_tools(case)
+    if miss:
+        if ev is not None:
+            ev.exclude(f'feature/{name}: tool not installed ({", ".join(miss)})')
+        return None
+    src = os.path.join(workdir, 'src')
+    bld = os.path.join(workdir, 'bld')
+    side = os.path.join(workdir, 'side')
+    shutil.rmtree(workdir, ignore_errors=True)
+    os.makedirs(src)
+    try:
+        proj = featproj.build(case)
+        env = proj.write(src)
+        r = run_sub(['setup'] + proj.setup_args() + [bld, src], env=env or None)
+        if r.rc != 0:
+            if ev is not None:
+                ev.exclude(f'feature/{name}: project did not configure (C04 territory)')
+            return None
+        run_names = {INTERNAL_PREFIX + n for n in proj.run_targets}
+        f = judge_build(bld, side, case, ev, seed, nsched, run_names, model_hash(case), cls=f'feature/{name}')
+        if f is not None:
+            f.sig = f'{f.sig}@feature/{name}'
+            f.msg = f'catalogue project {name} {case.get("opts")}: {f.msg}'
+        return f
+    finally:
+        shutil.rmtree(workdir, ignore_errors=True)
+
+
+def load_dyndeps(m: refninja.Manifest, edges: T.List[refninja.Edge], bld: str, env: T.Dict[str, str], case: T.Any) -> T.Optional[Failure]:
+    """Ninja's dynamic dependencies: statements bound to a dyndep file learn further implicit inputs/outputs from it
+    once it has been built.  Here every dyndep file (with its declared ancestors) is built first, in declaration-stable
+    topological order, and loaded; from then on the graph is static and all schedules are drawn from the complete graph
+    (the state a ninja run reaches as soon as the dyndep files are up to date)."""
+    dd = refninja.dyndep_files(m)
+    if not dd:
+        return None
+    need: T.Set[int] = set()
+    for path in dd:
+        pe = m.producer.get(path)
+        if pe is None:
+            return Failure('dyndep/file-has-no-producer', case, f'dyndep file {path!r} is not produced by any statement')
+        need.add(id(pe))
+        need |= m.ancestors(pe)
+    edge_ids = {id(e) for e in edges}
+    for e in m.topo_order(need):
+        if id(e) not in edge_ids:
+            continue
+        rr = refninja.run_edge(e, bld, env)
+        if rr.rc != 0:
+            return Failure(f'dyndep/scan-step-fails:{e.rule.name}', case,
+                           f'building the dyndep files: {describe(e)} failed:\n$ {rr.command}\n{rr.output[-1500:]}')
+    for path in sorted(dd):
+        refninja.load_dyndep(m, path, bld)
+    if m.duplicate_outputs:
+        o, e1, e2 = m.duplicate_outputs[0]
+        return Failure('dyndep/duplicate-producer', case, f'after loading the dyndep files {o!r} is produced by two statements '
+                       f'(lines {e1.lineno} and {e2.lineno})')
+    if m.find_cycle():
+        return Failure('dyndep/cycle', case, f'after loading the dyndep files the graph has a cycle: {m.find_cycle()}')
+    return None
+
+
+def judge_build(bld: str, side: str, case: T.Any, ev: T.Optional[Evidence], seed: int, nsched: int,
+                run_names: T.Set[str], case_hash: str, cls: T.Optional[str] = None) -> T.Optional[Failure]:
+    """The oracle for one configured build directory: (1) reference build, (3) depfile cross-check, (2) hermetic replay of
+    every non-phony statement, (4) schedules.  `case` is what a Failure carries; `cls` overrides the evidence class
+    (catalogue projects are counted as feature/<name>)."""
+    env = base_env()
+    rnd = random.Random(seed)
+    try:
+        m = refninja.parse_file(os.path.join(bld, 'build.ninja'))
+    except refninja.NinjaError:
+        if ev is not None:
+            ev.exclude('build.ninja does not parse (C04 territory)')
+        return None
+    edges = buildable_edges(m, run_names)
+    try:
+        f = load_dyndeps(m, edges, bld, env, case)
+    except refninja.NinjaError as ex:
+        return Failure('dyndep/invalid', case, f'dyndep information cannot be used: {ex}')
+    if f is not None:
+        return f
+    edge_ids = {id(e) for e in edges}
+    ref_order = schedule(m, edges, 'declaration', rnd)
+    # (1) reference build
+    for e in ref_order:
+        rr = refninja.run_edge(e, bld, env)
+        if rr.rc != 0:
+            return Failure('schedule/declaration-order-fails', case,
+                           f'reference build (declaration-stable topological order) failed at {describe(e)}:\n$ {rr.command}\n{rr.output[-1500:]}')
+    ref = digests(bld, edges)
+    missing = [o for o, d in ref.items() if d == 'missing']
+    if missing:
+        return Failure('schedule/output-not-produced', case, f'after a successful build these declared outputs do not exist: {missing[:5]}')
+    producers = {}
+    for e in edges:
+        for o in e.all_outs:
+            producers[o] = e
+    # (3) depfile cross-check
+    for e in edges:
+        df = e.get('depfile')
+        if not df or not os.path.exists(os.path.join(bld, df)):
+            continue
+        with open(os.path.join(bld, df), encoding='utf-8', errors='replace') as fh:
+            deps = refninja.parse_depfile(fh.read())
+        anc = m.ancestors(e)
+        for dp in deps:
+            rel = dp
+            if os.path.isabs(dp):
+                rel = os.path.relpath(dp, bld)
+            rel = refninja.canon_path(rel)
+            pe = producers.get(rel)
+            if pe is not None and pe is not e and id(pe) not in anc:
+                return Failure('depfile/undeclared-generated-input', case,
+                               f'{describe(e)} really read the generated file {rel!r} (per its depfile) but the statement producing it '
+                               f'({describe(pe)}) is not among its declared ancestors')
+    # (2) hermetic per-edge replay
+    all_outs = all_build_outputs(edges)
+    # A statement whose command does nothing (`true`) cannot write its outputs: they are by-products of the statements it
+    # directly depends on (meson's FORTRAN_DEP_HACK for ninja < 1.10 re-labels the .mod file written by the compile step).
+    # Such outputs count as outputs of those statements: present exactly when one of them is an ancestor (or the no-op
+    # statement itself is replayed).
+    noop = {id(e) for e in edges if e.command().strip() in ('true', ':')}
+    byproducts: T.Dict[int, T.Set[str]] = {}
+    for e in edges:
+        if id(e) in noop:
+            for d in m.deps_of(e):
+                byproducts.setdefault(id(d), set()).update(e.all_outs)
+    for e in edges:
+        anc = m.ancestors(e)
+        keep = set()
+        for a in edges:
+            if id(a) in anc:
+                keep.update(a.all_outs)
+                keep.update(byproducts.get(id(a), ()))
+        if id(e) in noop:
+            keep.update(e.all_outs)
+        moved = []
+        os.makedirs(side, exist_ok=True)
+        for i, o in enumerate(all_outs):
+            if o in keep:
+                continue
+            p = os.path.join(bld, o)
+            if os.path.lexists(p):
+                os.rename(p, os.path.join(side, str(i)))
+                moved.append((i, p))
+        try:
+            rr = refninja.run_edge(e, bld, env)
+            got = {o: artifact_digest(os.path.join(bld, o)) for o in e.all_outs if not o.startswith(INTERNAL_PREFIX)}
+        finally:
+            for o in e.all_outs:
+                p = os.path.join(bld, o)
+                if os.path.lexists(p) and any(p == mp for _, mp in moved):
+                    if os.path.isdir(p) and not os.path.islink(p):
+                        shutil.rmtree(p)
+                    else:
+                        os.unlink(p)
+            df = e.get('depfile')
+            if df and os.path.lexists(os.path.join(bld, df)) and any(os.path.join(bld, df) == mp for _, mp in moved):
+                os.unlink(os.path.join(bld, df))
+            for i, p in moved:
+                os.rename(os.path.join(side, str(i)), p)
+        gen_anc = any(id(a) in anc for a in edges)
+        removed_other = sum(1 for _, p in moved if os.path.relpath(p, bld) not in e.all_outs)
+        if ev is not None:
+            ev.case((case_hash, e.outs), nontrivial=gen_anc and removed_other > 0, cls=cls or f'hermetic/{e.rule.name}',
+                    sample={'edge': describe(e), 'ancestors': len(anc), 'outputs_removed': len(moved)})
+        if rr.rc != 0:
+            kind = e.rule.name
+            return Failure(f'hermetic/step-fails:{kind}', case,
+                           f'{describe(e)} fails when only the outputs of its declared ancestors are present '
+                           f'({len(moved)} other build outputs moved away):\n$ {rr.command}\n{rr.output[-1500:]}')
+        for o, dg in got.items():
+            if dg != ref[o]:
+                return Failure(f'hermetic/output-differs:{e.rule.name}', case,
+                               f'{describe(e)} produced a different {o!r} when only its declared ancestors\' outputs were present')
+    # (4) schedules
+    policies = ['producers-last', 'reverse-decl', 'consumers-first'] + ['random'] * max(1, nsched - 3)
+    for k, pol in enumerate(policies[:nsched]):
+        order = schedule(m, edges, pol, rnd)
+        par = (k % 2 == 1)
+        clean_outputs(bld, edges)
+        differs = [describe(a) for a, b in zip(order, ref_order) if a is not b]
+        if par:
+            for wave in waves(m, order, edges):
+                with concurrent.futures.ThreadPoolExecutor(max_workers=4) as ex:
+                    results = list(ex.map(lambda e: refninja.run_edge(e, bld, env), wave))
+                bad = [x for x in results if x.rc != 0]
+                if bad:
+                    rr = bad[0]
+                    return Failure(f'schedule/step-fails:{pol}:parallel', case,
+                                   f'under schedule {pol!r} (parallel waves) {describe(rr.edge)} failed:\n$ {rr.command}\n{rr.output[-1500:]}')
+        else:
+            for e in order:
+                rr = refninja.run_edge(e, bld, env)
+                if rr.rc != 0:
+                    pos = order.index(e)
+                    return Failure(f'schedule/step-fails:{pol}', case,
+                                   f'under the valid topological order {pol!r} step {pos + 1}/{len(order)} {describe(e)} failed:\n$ {rr.command}\n{rr.output[-1500:]}'
+                                   f'\norder so far: {[describe(x) for x in order[:pos + 1]][-6:]}')
+        got = digests(bld, edges)
+        diff = [o for o in ref if got.get(o) != ref[o]]
+        if ev is not None:
+            ev.case((case_hash, pol, [x.outs for x in order]), nontrivial=bool(differs), cls=cls or f'schedule/{pol}{"/parallel" if par else ""}',
+                    sample={'policy': pol, 'edges': len(order), 'positions_differing_from_reference': len(differs)})
+        if diff:
+            return Failure(f'schedule/artifact-differs:{pol}', case,
+                           f'schedule {pol!r} produced different artifacts than the reference order: {diff[:5]}')
+    return None
 
 
 def model_hash(model: dict) -> str:
@@ -342,11 +464,39 @@ def _gen_shard(shard: T.Tuple[int, int, int], ev: Evidence, fails: T.List[Failur
         shutil.rmtree(work, ignore_errors=True)
 
 
+def _feat_shard(shard: T.Tuple[int, int, dict], ev: Evidence, fails: T.List[Failure]) -> None:
+    seed, nsched, case = shard
+    work = make_scratch('c05-feat')
+    try:
+        f = check_feature(case, os.path.join(work, 'case'), ev, seed, nsched)
+        ev.event(f'catalogue:{case["feature"]}')
+        if f is not None:
+            fails.append(f)
+    finally:
+        shutil.rmtree(work, ignore_errors=True)
+
+
+def _shard(shard: T.Tuple[str, T.Any], ev: Evidence, fails: T.List[Failure]) -> None:
+    kind, payload = shard
+    (_feat_shard if kind == 'feat' else _gen_shard)(payload, ev, fails)
+
+
 def run(ctx: Ctx) -> None:
     per = ctx.n(3, 60)
     nsched = 4 if ctx.quick else 6
-    pmap(ctx, _gen_shard, [(s, per, nsched) for s in shard_seeds(ctx, 16)])
+    # the catalogue: every project in both tiers; the seed only selects the option sets (featproj.cases).  The hermetic
+    # replay is what finds a missing edge at once; quick runs one further schedule per catalogue project, thorough six.
+    fsched = 1 if ctx.quick else 6
+    cs = featproj.cases(ctx.seed, ctx.tier)
+    gen = [('gen', (s, per, nsched)) for s in shard_seeds(ctx, 16)]
+    feat = [('feat', (ctx.seed, fsched, c)) for c in featproj.by_cost(cs)]
+    ctx.ev.extra['catalogue_cases'] = len(cs)
+    # one pool for both kinds: the 16 (long) generated-model shards start first, the catalogue projects - one small task
+    # each, most expensive first - fill the cores as they become free
+    pmap(ctx, _shard, gen + feat)
 
 
 def replay(ctx: Ctx, case: T.Any, doc: dict) -> T.Optional[Failure]:
+    if isinstance(case, dict) and 'feature' in case:
+        return check_feature(case, os.path.join(ctx.scratch, 'replay'), None, doc.get('seed', 1), 6)
     return check_model(case, os.path.join(ctx.scratch, 'replay'), None, doc.get('seed', 1), 6)
